@@ -169,7 +169,7 @@ func parsePossibility(input *input, relation *Relation) error {
 				return err
 			}
 			continue
-		case ' ', '\t', '\r', '\n', '(':
+		case ' ', '\t', '\r', '\n', '(', '[', '<':
 			err := parsePossibilityControllers(input, ret)
 			if err != nil {
 				return err
